@@ -152,3 +152,18 @@ package inverted
 //@   ensures err == nil && len(query) > 1 && operator == "containsAny" ==> ncalls(FastOr) == 1 && ncalls(FastAnd) == 0 && result0 == callres(FastOr, 1, 0)
 //@   ensures len(query) == 1 ==> ncalls(FastAnd) == 0 && ncalls(FastOr) == 0
 //@   loop 1 invariant rangeindex >= -1 && rangeindex < len(query) && len(resList) == len(query) && ncalls(FastAnd) == 0 && ncalls(FastOr) == 0
+
+// ---- posting maintenance (property C02) ----
+// One change moves the point's id from the posting of its previous value to the posting of its
+// current value: an insert adds it to the current value's set, a delete removes it from the
+// previous value's set, an update does both (nothing when the value did not change), a blank
+// change touches nothing; a set that really changed is marked dirty so that flush writes it.
+// (the clause `v != v` exempts a float NaN, which is not equal to itself, from the value identity)
+//@ func (*IndexInverted).processChange
+//@   property C02
+//@   safety -overflow -nil
+//@   ensures change.PreviousData == nil && change.CurrentData == nil ==> ncalls(getSetCacheItem) == 0 && result == nil
+//@   ensures result == nil && change.PreviousData == nil && change.CurrentData != nil ==> (callarg(getSetCacheItem, 1, 1) == old(*change.CurrentData) || old(*change.CurrentData) != old(*change.CurrentData)) && bhas(callres(getSetCacheItem, 1, 0).set, change.Id) && (callres(CheckedAdd, 1, 0) ==> callres(getSetCacheItem, 1, 0).isDirty)
+//@   ensures result == nil && change.PreviousData != nil && change.CurrentData == nil ==> (callarg(getSetCacheItem, 2, 1) == old(*change.PreviousData) || old(*change.PreviousData) != old(*change.PreviousData)) && !bhas(callres(getSetCacheItem, 2, 0).set, change.Id) && (callres(CheckedRemove, 1, 0) ==> callres(getSetCacheItem, 2, 0).isDirty)
+//@   ensures result == nil && change.PreviousData != nil && change.CurrentData != nil && old(*change.PreviousData) != old(*change.CurrentData) ==> (callarg(getSetCacheItem, 3, 1) == old(*change.PreviousData) || old(*change.PreviousData) != old(*change.PreviousData)) && (callarg(getSetCacheItem, 4, 1) == old(*change.CurrentData) || old(*change.CurrentData) != old(*change.CurrentData)) && bhas(callres(getSetCacheItem, 4, 0).set, change.Id) && (callres(getSetCacheItem, 3, 0).set != callres(getSetCacheItem, 4, 0).set ==> !bhas(callres(getSetCacheItem, 3, 0).set, change.Id))
+//@   ensures change.PreviousData != nil && change.CurrentData != nil && old(*change.PreviousData) == old(*change.CurrentData) ==> ncalls(getSetCacheItem) == 0 && result == nil
